@@ -560,6 +560,8 @@ func (ex *Exec) mutexLock(g *G, p *PtrV) {
 		panic(mergeAbort{"lock in arm"})
 	}
 	m := ex.mutexOf(p)
+	// acquiring a lock is a scheduling point when a pre-emption budget is left
+	ex.switchPoint(g)
 	if m.held || m.readers > 0 {
 		ex.park(g, &Wait{kind: wMutex, mu: m})
 		return
